@@ -134,6 +134,23 @@ def head_guarded(h, prog, bb):
     return pathsens.path_avoiding_edges(h, prog, 0, bb, head_edge, constprop=True) is None
 
 
+def apply_fangs_trees(prog):
+    """the per-method trees of base::Router that Router::apply_fangs hands the application's fangs to (also used by C04/C14)"""
+    af = prog.method(r"^ohkami::router::base::Router$", "apply_fangs")
+    seen = set()
+    for c in af.calls_to(r"base::Node::apply_fangs$"):
+        d = decision.describe_deep(af, c.args[0], 8)
+        m = re.search(r"^arg1\.(\w+)$", d)
+        if m:
+            seen.add(m.group(1))
+            continue
+        # `for root in [&mut self.GET, ..] { root.apply_fangs(..) }`: the receiver is the element of an iterated array literal
+        m = re.match(r"^next\((?:into_iter|iter_mut|iter)\(array\{([^{}]*)\}\)\)@Some\.0$", d)
+        if m:
+            seen.update(x.group(1) for x in re.finditer(r"(?:^|,)arg1\.(\w+)(?=,|$)", m.group(1)))
+    return seen, af
+
+
 def c01a(ck, prog):
     R = "C01-a TABLE dispatch"
     sites = 0
@@ -245,19 +262,8 @@ def c01a(ck, prog):
     ok = seen == set(METHODS)
     ck.ob(R, "merge:coverage", ok, ma.loc(None), "" if ok else "merge_another merges trees %s" % sorted(seen), how="6 trees")
     # 6. apply_fangs: all six trees
-    af = prog.method(r"^ohkami::router::base::Router$", "apply_fangs")
     sites += 1
-    seen = set()
-    for c in af.calls_to(r"base::Node::apply_fangs$"):
-        d = decision.describe_deep(af, c.args[0], 8)
-        m = re.search(r"^arg1\.(\w+)$", d)
-        if m:
-            seen.add(m.group(1))
-            continue
-        # `for root in [&mut self.GET, ..] { root.apply_fangs(..) }`: the receiver is the element of an iterated array literal
-        m = re.match(r"^next\((?:into_iter|iter_mut|iter)\(array\{([^{}]*)\}\)\)@Some\.0$", d)
-        if m:
-            seen.update(x.group(1) for x in re.finditer(r"(?:^|,)arg1\.(\w+)(?=,|$)", m.group(1)))
+    seen, af = apply_fangs_trees(prog)
     ok = seen == set(METHODS)
     ck.ob(R, "apply_fangs:coverage", ok, af.loc(None), "" if ok else "Router::apply_fangs reaches trees %s: fangs would not run for the other methods" % sorted(seen), how="6 trees")
     ck.floor(R, "dispatch sites", sites, 5)
